@@ -1,7 +1,7 @@
 (* C01 — Mesh cells tile the region; index<->coordinate maps are mutually inverse.
    This file holds ONLY statements, each closed by [exact] of a lemma proved in proofs/,
    followed by Print Assumptions. *)
-From DF Require Import Prelude Constants_gen Region Mesh C01_axis C01_nd C01_lattice C01_tiling Check_C01 C01_sound.
+From DF Require Import Prelude Constants_gen Region Mesh C01_axis C01_nd C01_lattice C01_tiling Check_C01 C01_sound C07_accept C01_bycell.
 Open Scope Q_scope.
 
 (* centres are pmin + (i + 1/2) * cell, cell = edges / n *)
@@ -185,3 +185,25 @@ Example C01_accepted_centre_instance :
   check_C01 (CI2P true [0; 0] [4; 3] [4; 2]%Z (1 # 1000000000000) [3; 0]%Z (Some [7 # 2; 3 # 4])) = true.
 Proof. exact accepted_centre_instance. Qed.
 Print Assumptions C01_accepted_centre_instance.
+
+(* ---- the n-d by-cell constructor, both directions.  Accepted whenever every edge is a whole
+   number of cells (with those counts); whatever it accepts sits on the region, has the rounded
+   count in every direction, and every edge is a whole number of cells up to the documented
+   tolerance (0.1 % of the smallest cell length). *)
+Theorem C01_by_cell_constructor_accepts : forall (r : region) (c : list Q) (ks : list Z),
+  wf_region r -> length c = ndim r -> length ks = ndim r ->
+  (forall a, (a < ndim r)%nat ->
+     0 < nth a c 0 /\ (0 < nth a ks 0)%Z /\
+     nth a (pmax r) 0 - nth a (pmin r) 0 == inject_Z (nth a ks 0%Z) * nth a c 0) ->
+  mesh_by_cell r c = OK (mkMesh r ks "" []).
+Proof. exact mesh_by_cell_accepts. Qed.
+Print Assumptions C01_by_cell_constructor_accepts.
+Theorem C01_by_cell_constructor_sound : forall (r : region) (c : list Q) (m : mesh),
+  wf_region r -> mesh_by_cell r c = OK m ->
+  reg m = r /\ length c = ndim r /\ length (n m) = ndim r /\
+  forall a, (a < ndim r)%nat ->
+    0 < nth a c 0 /\
+    nth a (n m) 0%Z = Qround_half_even ((nth a (pmax r) 0 - nth a (pmin r) 0) / nth a c 0) /\
+    Qabs ((nth a (pmax r) 0 - nth a (pmin r) 0) - inject_Z (nth a (n m) 0%Z) * nth a c 0) <= bycell_tol c.
+Proof. exact mesh_by_cell_sound. Qed.
+Print Assumptions C01_by_cell_constructor_sound.
